@@ -1,10 +1,11 @@
 CONSTANTS
   Kinds = {"plain", "ecs", "cd", "ecscd"}
   Borns = {"msg", "wire"}
+  Flags <- MCFlags
   MaxSteps = 4
   LoseMarker = FALSE
 INIT Init
 NEXT Next
 VIEW View
-PROPERTIES NeverConsumes NeverCreates
+PROPERTIES NeverConsumes NeverCreates ADDiscipline
 CHECK_DEADLOCK FALSE
